@@ -45,6 +45,39 @@ pub fn run(args: &Args, out: &mut Out) {
         out.bump("builtin_chain");
     }
 
+    // lua_versions: every pair from a small exhaustive set (explicit lua51, unknown names, multi)
+    let version_sets: Vec<Vec<LuaVersion>> = vec![
+        vec![],
+        vec![LuaVersion::Lua51],
+        vec![LuaVersion::Lua52],
+        vec![LuaVersion::Luau],
+        vec![LuaVersion::Lua51, LuaVersion::Lua53],
+        vec![LuaVersion::Unknown("lua55".to_owned())],
+        vec![LuaVersion::LuaJIT, LuaVersion::Lua51],
+    ];
+    for dv in &version_sets {
+        for bv in &version_sets {
+            let mut d = StandardLibrary::default();
+            d.lua_versions = dv.clone();
+            let mut b = StandardLibrary::default();
+            b.lua_versions = bv.clone();
+            let mut merged = d.clone();
+            merged.extend(b.clone());
+            out.case("C15.extend", &list(vec![lib_sx(&d), lib_sx(&b)]), &lib_sx(&merged));
+            out.bump("version_pair_exhaustive");
+            for cv in &version_sets {
+                let mut c = StandardLibrary::default();
+                c.lua_versions = cv.clone();
+                // d based on b based on c
+                let mut inner = b.clone();
+                inner.extend(c.clone());
+                let mut outer = d.clone();
+                outer.extend(inner);
+                out.case("C15.chain", &list(vec![lib_sx(&d), lib_sx(&b), lib_sx(&c)]), &lib_sx(&outer));
+            }
+        }
+    }
+
     // generated pairs over a small shared key space
     let gen = LibGen { max_depth: 2, max_keys: 5, segments: vec!["a", "b", "c", "*"], ..LibGen::default() };
     for _ in 0..args.n {
